@@ -344,6 +344,9 @@ def run(ctx):
                                "cursor (one read of chars().next(), no cursor write before it), so ANY's content is the consumed character")
     next_rule(rnx, fs["pest_typed"])
     rnx.require(2, "implementations of next")
+    # built-in aliases are choices too: a character's variant index is the position of its alternative in pest's definition
+    from . import c01
+    ctx.adopt(c01.run_builtin_order, {"R01-BUILTIN-ORDER": "R17-BUILTIN"})
     from . import store
     rst = ctx.rule("R17-STORE", "container nodes return, on every path, a node that contains the node of each child that matched on that path "
                                 "(the accessors can only reflect what was stored)")
